@@ -167,6 +167,7 @@ def c07(rec, tier):
 def c08(rec, tier):
     F = D(rec)
     f4_sched.run(rec, F)
+    f4_vm.runtime_error_has_error(rec, F)
 
 
 def c15(rec, tier):
